@@ -92,6 +92,11 @@ def hand_programs():
                 if arm == len(conds) and els is None: continue      # nothing follows the inner statement at the outer level
                 add("nest-%s-arm%d-%s" % (iname, arm, cont), prog([if_(conds, blocks, els), mark("after")]))
                 add("nest-fn-%s-arm%d-%s" % (iname, arm, cont), prog([ex(call("F"))], funcs=[func("F", [], [if_(conds, blocks, els), ret(num(1))])]))
+    # bodies of ONE statement after an 输入 line (function, method of a type, constructor, the program itself): dropping that one
+    # line leaves a definition without a body (the corruption family of C03 / C05 always includes these)
+    add("one-statement-bodies", prog([ret(var("IN1"))], inputs=["IN1"], funcs=[func("F", ["X"], [ret(var("X"))]), func("G", ["X", "Y"], [ret(var("Y"))], [catch("@exc", [ret(num(0))])])],
+                                     classes=[dict(cls("K", [("p", num(1))], ctor=func("K", ["X"], [ex(asg(this("p"), var("X")))]),
+                                                   methods=[func("m", ["Z"], [ret(var("Z"))])]), getters=[func("g", [], [ret(this("p"))])])]))
     add("strings-and-lists", prog([decl("L", lst(s("a b"), s(""), lst(lst(num(1)), lst()), dct(["x"], [dct(["y"], [num(1)])]))), disp(s("含，标点：和、符号！"), num(-5), num(0))]))
     return P
 
